@@ -52,7 +52,7 @@ class Spec(CheckSpec):
                 yield {"driver": "e1", "seed": base_seed * 1000003 + 61000000 + rep * 10 + len(name), "shipped": name, "max_episode_length": mel, "n_ops": mel, "monitors": ["c06"], "op_mix": {"step": 0.85, "reset": 0.02, "fault": 0.13}}
         for i in range(60 if tier == "quick" else 1500):
             seed = base_seed * 1000003 + 62000000 + i
-            prof = {"topologies": ["routed", "routed2", "firewall", "wireless"], "obs": False, "random_acl_rules": (2, 10), "avoid": ["listen_on_ports"]}
+            prof = {"topologies": ["routed", "routed2", "firewall", "wireless"], "obs": False, "random_acl_rules": (2, 10)}
             yield {"driver": "e1", "seed": seed, "profile": prof, "n_ops": 40, "monitors": ["c06"], "op_mix": {"step": 0.8, "reset": 0.03, "fault": 0.17}}
 
 
